@@ -5,6 +5,7 @@
 # is what tools/run_seeded_inplace.sh does; this one exists so that several can run side by side.)
 d=$1; tag=$2; shift 2
 base=/tmp/mut/ev_$tag
+git -C /repo worktree prune
 rm -rf $base; mkdir -p $base
 git -C /repo worktree add --detach $base/repo HEAD -q || exit 2
 git -C $base/repo apply $d/patch.diff || { echo "patch does not apply"; exit 2; }
@@ -12,7 +13,8 @@ mkdir -p $base/verif
 ( cd /verif && tar cf - --exclude=./work --exclude=./replays --exclude=./.git . ) | ( cd $base/verif && tar xf - )
 sed -i "s#path = \"/repo\"#path = \"$base/repo\"#" $base/verif/harness/Cargo.toml
 for p in "$@"; do
-  r=$(cd $base/verif && STEVIA_REPO=$base/repo ./check $p 2>&1 | grep -E '^VIOLATION|^check .* ok|^  - ' | (head -2; tail -1) | cut -c1-300 | tr '\n' '|')
+  (cd $base/verif && STEVIA_REPO=$base/repo ./check $p > $base/out_$p.txt 2>&1)
+  r=$( (grep -E '^  - ' $base/out_$p.txt | head -2; grep -E '^VIOLATION|^check .* ok' $base/out_$p.txt | tail -1) | cut -c1-300 | tr '\n' '|')
   echo "$tag [$p]: $r"
   [ -d $base/verif/replays ] && mkdir -p /tmp/mut/replays_$tag && cp -r $base/verif/replays/. /tmp/mut/replays_$tag/ 2>/dev/null
 done
